@@ -903,6 +903,7 @@ func nilSafetyRule(r *Run, rule string) {
 //     ever assigned the left operand handed to an infix function), and
 //   - every registered parse function that returns a *T assigns F a non-nil
 //     value at the top level of its body before returning.
+//
 // It returns the justification, or "" when the pattern does not apply.
 func (nm *nilModel) returnedNodeInvariant(f *FuncInfo, e ast.Expr) string {
 	info := f.Pkg.TypesInfo
